@@ -21,6 +21,8 @@ RULE = ("raw Argon2i/Argon2id through crypto_pwhash and the algorithm-specific e
         "needs_rehash == 0 iff parseable and (t, m) equal the requested pair, 1 if parseable and different, -1 if malformed. "
         "Every mutated string is one distinct case.")
 
+RULE = RULE + ' Foreign scrypt strings built by the reference: every digit value 1..63 in the two low digit positions of r and p (1..3 in the third), N = 2: correct/wrong password and needs_rehash; needs_rehash with every digit value in every position of N, r, p.'
+
 META = {
     "engine": "E-shape", "level": "exploration",
     "technique": "exhaustive bounded enumeration of cost parameters / lengths on every block-fill backend vs RFC 9106 / RFC 7914 references, and of all single-character deviations of hash strings vs a strict reference parser+hasher",
@@ -337,7 +339,7 @@ def _worker(args):
             return 0 if (own is not None and (own["N_log2"], own["r"], own["p"]) == (N_log2, r_, p_)) else 1
         for field in ("r", "p"):
             for pos_ in range(3):
-                for dv in (range(1, 64) if pos_ < 2 else (1, 2, 31, 32, 62, 63)):
+                for dv in (range(1, 64) if pos_ < 2 else (1, 2, 3)):      # position 2 kept small: r = 3 * 4096 needs 8 MiB; larger values would make the verdict depend on available memory
                     val = dv << (6 * pos_)
                     r_, p_ = (val, 1) if field == "r" else (1, val)
                     setting = ps.scrypt7_encode(1, r_, p_, salt_txt, bytes(32))
